@@ -3,13 +3,31 @@ claimed, and the assumptions listed in the evidence (DESIGN.md section 3)."""
 
 A_PY = "A-PY: pyvc's encoding of the supported Python subset is faithful (ints are mathematical, as in Python)"
 A_LIB = "A-LIB: models of re / pathlib / str / dict order / json / shutil in /verif/contracts (ext:: contracts)"
-A_OS = "A-OS: waitpid reports each exit once; SIGCHLD delivered after an exit; pipes deliver written bytes in order"
+A_OS = "A-OS: waitpid reports each exit once; SIGCHLD delivered after an exit; pipes deliver written bytes in order; a pid is not reused before it is reaped"
 A_SQL = "A-SQL: sqlite executes the SQL text of version_index_queries.py as written; commit is atomic"
 A_GIT = "A-GIT: git merge-base --is-ancestor / rev-list --count / rev-parse mean what their documentation says"
 A_SIG = "A-SIG: one abort signal per invocation, delivered at a statement boundary or right after a call returns"
+A_PLAN = "A-PLAN: the executor contracts assume a well-formed plan (symmetric duplicate-free edges, initial_ops = ops without dependencies); established by the planner checks (C02), bounded where stated"
 
 PROPS = {
-    "C08": {"rt": ["rt_versions"], "level": "proof", "assumes": [A_PY, A_SQL, A_LIB],
-            "ext_used": ["time.time"],
-            "explanation": "generate_new_output_version proved strictly increasing for an arbitrary clock; seeding and freshness of the directory by contract + bounded runs"},
+    "C01": {"rt": ["rt_planner", "rt_executor"], "level": "proof", "assumes": [A_PY, A_OS, A_PLAN]},
+    "C02": {"rt": ["rt_planner", "rt_executor"], "level": "proof", "assumes": [A_PY, A_PLAN]},
+    "C03": {"rt": ["rt_executor"], "level": "proof", "assumes": [A_PY, A_OS, A_PLAN]},
+    "C04": {"rt": ["rt_executor", "rt_env"], "level": "proof", "assumes": [A_PY, A_OS, A_PLAN]},
+    "C05": {"rt": ["rt_versions"], "level": "proof", "assumes": [A_PY, A_GIT, A_SQL]},
+    "C06": {"rt": ["rt_tee", "rt_crash", "rt_archive"], "level": "proof", "assumes": [A_PY, A_SQL, A_LIB]},
+    "C07": {"rt": ["rt_env", "rt_planner"], "level": "proof", "assumes": [A_PY, A_LIB]},
+    "C08": {"rt": ["rt_versions"], "level": "proof", "assumes": [A_PY, A_SQL, A_LIB]},
+    "C09": {"rt": ["rt_executor", "rt_sigchld"], "level": "proof", "assumes": [A_PY, A_OS, A_SIG, A_PLAN]},
+    "C10": {"rt": ["rt_tee"], "level": "proof", "assumes": [A_PY, A_OS, A_LIB]},
+    "C11": {"rt": ["rt_traverse", "rt_archive"], "level": "proof", "assumes": [A_PY, A_SQL, A_LIB]},
+    "C12": {"rt": ["rt_archive"], "level": "proof", "assumes": [A_PY, A_SQL, A_LIB]},
+    "C13": {"rt": ["rt_fs", "rt_identifiers"], "level": "proof", "assumes": [A_PY, A_LIB]},
+    "C14": {"rt": ["rt_taskindex"], "level": "proof", "assumes": [A_PY]},
+    "C15": {"rt": ["rt_parsing"], "level": "proof", "assumes": [A_PY, A_LIB]},
+    "C16": {"rt": ["rt_abort"], "level": "proof", "assumes": [A_PY, A_OS, A_SIG]},
+    "C17": {"rt": ["rt_fs"], "level": "proof", "assumes": [A_PY, A_LIB]},
+    "C18": {"rt": ["rt_fs", "rt_planner"], "level": "proof", "assumes": [A_PY, A_LIB]},
+    "C19": {"rt": ["rt_parsing"], "level": "proof", "assumes": [A_PY]},
+    "C20": {"rt": ["rt_identifiers"], "level": "proof", "assumes": [A_PY, A_LIB]},
 }
